@@ -28,7 +28,7 @@ variable {R : Type} [Scalar R]
 which is limited by the feature's depths and the relative distance instead) -/
 def TempModel.rangeOf : TempModel R → Option (DepthRange R × Bool)
   | .uniform rng _ _ lf => some (rng, lf)
-  | .linear rng _ _ _ _ => some (rng, false)
+  | .linear rng _ _ _ => some (rng, false)
   | .adiabatic rng _ _ _ _ => some (rng, false)
   | .chapman rng _ _ _ _ _ => some (rng, false)
   | .halfSpace rng _ _ _ _ => some (rng, false)
@@ -132,9 +132,6 @@ def gaussianTable (depths centerT sigmas : List R) (d : R) (up : Nat) : Except E
     let s1 ← idx sigmas up
     pure (((1 : R) - fraction) * c0 + fraction * c1, ((1 : R) - fraction) * s0 + fraction * s1)
 
-/-- the quantity the slab / fault `adiabatic` model tests against its range: the slab copy the distance from the slab top,
-the fault copy the **depth** (as written, fault_models/temperature/adiabatic.cc) -/
-def lineAdiabaticTest (isFault : Bool) (depth : R) (pd : PlaneDist R) : R := if isFault then depth else pd.distanceFromPlane
 
 /-- the code's sentinel test is the specification's, by definition -/
 theorem orAdiabatic_fold {R : Type} [Scalar R] (t tp a g cp z : R) :
